@@ -280,8 +280,14 @@ fn decide(case: &Case, info: &mut CaseInfo) -> Verdict {
                 (median(&times[1.min(n)..10.min(n)]), median(&times[n.saturating_sub(9)..]), true)
             };
             let k = usize::from(crowd.prefill_k) * 1000;
-            let grows = |(first, last, done): (Duration, Duration, bool)| !done || last > first * 25 + Duration::from_millis(40);
+            // decided by the cost of the last batches relative to the first ones only: a measurement that the 6 s budget
+            // cut off (a loaded machine) is judged on the batches it did complete - on an implementation whose cost
+            // grows with the addresses seen those are the expensive ones - and is never a violation by itself
+            let grows = |(first, last, _done): (Duration, Duration, bool)| last > first * 25 + Duration::from_millis(40);
             let m1 = cost(k);
+            if !m1.2 {
+                info.class("admission_cost_measurement_cut_off_by_budget");
+            }
             if grows(m1) {
                 let m2 = cost(k);
                 if grows(m2) {
